@@ -1,4 +1,6 @@
+pub mod exec;
 pub mod img;
+pub mod model;
 pub mod outcome;
 pub mod props;
 pub mod runner;
